@@ -54,6 +54,7 @@ type Violation struct {
 	Inputs    map[string][]uint64 // per base name, in call order
 	Decisions []Decision
 	Schedule  []int
+	Sched     [][3]int // per scheduling point: thread at the point, kind (0 yield, 1 block, 2 exit), thread chosen
 	Known     []string // known-finding ids whose region contains this violation ("" region = unlisted)
 	Unlisted  bool     // true when a model outside every known region exists
 	Params    map[string]int
@@ -116,6 +117,7 @@ type Machine struct {
 	poolSeq    int
 	lastNow    *term.Term
 	schedPos   int
+	schedTrace [][3]int
 	proved     map[*term.Term]bool // conditions implied by the path condition (which only grows)
 	doneCh     chan struct{}
 	wg         sync.WaitGroup
@@ -428,6 +430,7 @@ func (m *Machine) reportViolation(kind, msg, site string, neg *term.Term, mod *t
 	v.Inputs = m.inputValues(useMod)
 	v.Decisions = append([]Decision(nil), m.decisions...)
 	v.Schedule = append([]int(nil), m.schedule...)
+	v.Sched = append([][3]int(nil), m.schedTrace...)
 	m.violation = v
 	m.H.addViolation(v)
 }
